@@ -50,6 +50,7 @@ type Cloud struct {
 	inflight     int
 	fullReads    int
 	deleteFailed map[string]bool
+	createFailed map[string]bool // interfaces created by a create call that reported failure, not adopted since
 	unacked      map[string]bool // addresses assigned by a call that then reported failure, not yet revealed by a full read
 	// mutations issued by the controller, for the fixed-point oracle
 	mutations      int
@@ -60,7 +61,7 @@ type Cloud struct {
 }
 
 func newCloud(w *World) *Cloud {
-	return &Cloud{w: w, enis: map[string]*cENI{}, timedOut: map[string]string{}, timedOutAssign: map[string][]aliyunClient.IPSet{}, deleteFailed: map[string]bool{}, unacked: map[string]bool{}}
+	return &Cloud{w: w, enis: map[string]*cENI{}, timedOut: map[string]string{}, timedOutAssign: map[string][]aliyunClient.IPSet{}, deleteFailed: map[string]bool{}, createFailed: map[string]bool{}, unacked: map[string]bool{}}
 }
 
 func (c *Cloud) ip4() string {
@@ -167,14 +168,8 @@ func (c *Cloud) mutated(what string) {
 	c.histAt = append(c.histAt, time.Now())
 }
 
-func (c *Cloud) orphanOfFailedCreate(id string) bool {
-	for _, tid := range c.timedOut {
-		if tid == id {
-			return true
-		}
-	}
-	return false
-}
+// orphanOfFailedCreate: created by a call that reported failure and never handed to a caller since.
+func (c *Cloud) orphanOfFailedCreate(id string) bool { return c.createFailed[id] }
 
 // recentCycle tells whether the mutations of the last d consist of nothing but repeated
 // assign / unassign calls (the pool being trimmed and refilled over and over).
@@ -298,6 +293,7 @@ func (c *Cloud) CreateNetworkInterfaceV2(ctx context.Context, opts ...aliyunClie
 				c.leave("create", "err after effect (again) "+id)
 				return nil, cloudErr(fault)
 			}
+			delete(c.createFailed, id)
 			c.leave("create", id+" (same token: existing interface)")
 			return c.toAPI(e), nil
 		}
@@ -326,6 +322,7 @@ func (c *Cloud) CreateNetworkInterfaceV2(ctx context.Context, opts ...aliyunClie
 	c.mutated("create " + e.ID)
 	if fault == "err-after" {
 		c.timedOut[pkey] = e.ID
+		c.createFailed[e.ID] = true
 		c.w.run.Fault("cloud.create.err-after")
 		c.leave("create", "err after effect "+e.ID)
 		return nil, cloudErr(fault)
